@@ -969,7 +969,14 @@ impl VM {
             return Ok(());
         }
         Err(Error::new(
-            format!("Invalid selector index: {:?} target: {:?}", right, left).into(),
+            // Name the kind of target but do not print it. It can be the
+            // whole process environment or any other amount of data.
+            format!(
+                "Invalid selector index: {:?} target: {}",
+                right,
+                left.type_name()
+            )
+            .into(),
             pos,
         ))
     }
